@@ -93,6 +93,9 @@ func VerifH_C10_RangeCID() {
 
 var verifInner []byte
 var verifVerifyCalls int
+
+// the sample container decodes and verifies (no nondeterministic verdict)
+var verifSampleHonest bool
 var verifVerifyArgs [2]int
 var verifVerifyRoot *share.AxisRoots
 
@@ -105,7 +108,7 @@ func verifUnmarshalProto(data []byte) (cid.Cid, []byte, error) {
 }
 
 func verifSampleUnmarshal(s *shwappb.Sample, data []byte) error {
-	if nd.Bool("container.decodes") {
+	if verifSampleHonest || nd.Bool("container.decodes") {
 		return nil
 	}
 	return errors.New("stub: bad container encoding")
@@ -120,7 +123,7 @@ func verifSampleVerify(s shwap.Sample, roots *share.AxisRoots, rowIdx, colIdx in
 	verifVerifyCalls++
 	verifVerifyArgs = [2]int{rowIdx, colIdx}
 	verifVerifyRoot = roots
-	if nd.Bool("container.verifies") {
+	if verifSampleHonest || nd.Bool("container.verifies") {
 		return nil
 	}
 	return errors.New("stub: container does not verify")
@@ -150,7 +153,7 @@ func VerifH_C10_HasherAcceptsOnlyRequested() {
 		verifInner = nd.Bytes(len(wantBytes)+1, "cid")
 	}
 	verifVerifyCalls = 0
-	hs := &hasher{IDSize: shwap.SampleIDSize}
+	hs := verifHasherFor(sampleMultihashCode)
 	werr := hs.write([]byte{0})
 	idBytes, _ := blk.ID.MarshalBinary()
 	if werr != nil {
